@@ -499,4 +499,289 @@ theorem reshapeWith_correct (samples : List (Nat × List Int)) (modes : List Nat
   simp [Function.comp, List.getD_eq_getElem?_getD, ht, hb]
 
 
+/-! ### what `_run_program` collects, read along `get_mode_order` -/
+
+/-- the collecting loop over the measured subsystems `ms` (tags = positions, starting at `k0`) -/
+def collectFrom (acc : List (Nat × List Int)) (ms : List Nat) (k0 : Nat) : List (Nat × List Int) :=
+  (ms.zipIdx k0).foldl (fun acc x => alSet acc x.1 (alGet [] acc x.1 ++ [(x.2 : Int)])) acc
+
+theorem collect_fold_map (l : List TCmd) : ∀ (k : Nat) (acc : List (Nat × List Int)),
+    (l.zipIdx k).foldl (fun acc x => alSet acc (x.1.regs.getD 0 0)
+        (alGet [] acc (x.1.regs.getD 0 0) ++ [(x.2 : Int)])) acc =
+      ((l.map fun c => c.regs.getD 0 0).zipIdx k).foldl
+        (fun acc x => alSet acc x.1 (alGet [] acc x.1 ++ [(x.2 : Int)])) acc := by
+  induction l with
+  | nil => intro k acc; rfl
+  | cons c l ih =>
+    intro k acc
+    simp only [List.zipIdx_cons, List.foldl_cons, List.map_cons]
+    exact ih _ _
+
+theorem collectSamples_eq (circ : List TCmd) :
+    collectSamples circ = collectFrom [] (measuredRegs circ) 0 := by
+  unfold collectSamples collectFrom measuredRegs
+  exact collect_fold_map _ 0 []
+
+/-- the queue of subsystem `m`: the tags of its measurements, in circuit order -/
+theorem alGet_collectFrom (ms : List Nat) : ∀ (acc : List (Nat × List Int)) (k0 m : Nat),
+    alGet [] (collectFrom acc ms k0) m =
+      alGet [] acc m ++ ((ms.zipIdx k0).filter (fun x => x.1 = m)).map (fun x => (x.2 : Int)) := by
+  induction ms with
+  | nil => intro acc k0 m; simp [collectFrom]
+  | cons a ms ih =>
+    intro acc k0 m
+    have : collectFrom acc (a :: ms) k0 =
+        collectFrom (alSet acc a (alGet [] acc a ++ [(k0 : Int)])) ms (k0 + 1) := by
+      simp [collectFrom, List.zipIdx_cons]
+    rw [this, ih, alGet_alSet]
+    by_cases h : m = a
+    · subst h; simp [List.zipIdx_cons, List.filter_cons]
+    · have h' : ¬ a = m := fun e => h e.symm
+      simp [List.zipIdx_cons, List.filter_cons, h, h']
+
+/-- the `count`-th entry of the queue of `m = ms[i]` is the tag of position `i` -/
+theorem queue_getD (ms : List Nat) : ∀ (k0 i m : Nat), i < ms.length → ms.getD i 0 = m →
+    (((ms.zipIdx k0).filter (fun x => x.1 = m)).map (fun x => (x.2 : Int))).getD
+        ((ms.take i).count m) 0 = ((k0 + i : Nat) : Int) := by
+  induction ms with
+  | nil => intro k0 i m hi; simp at hi
+  | cons a ms ih =>
+    intro k0 i m hi hm
+    cases i with
+    | zero =>
+      have : a = m := by simpa [List.getD_eq_getElem?_getD] using hm
+      subst this
+      simp [List.zipIdx_cons, List.filter_cons]
+    | succ i =>
+      have hi' : i < ms.length := by simpa using hi
+      have hm' : ms.getD i 0 = m := by simpa [List.getD_eq_getElem?_getD] using hm
+      have := ih (k0 + 1) i m hi' hm'
+      have e : k0 + 1 + i = k0 + (i + 1) := by omega
+      rw [e] at this
+      by_cases h : a = m
+      · subst h
+        simp only [List.take_succ_cons, List.zipIdx_cons, List.filter_cons, List.count_cons_self,
+          decide_true, if_true, List.map_cons]
+        simp only [List.getD_eq_getElem?_getD, List.getElem?_cons_succ] at this ⊢
+        exact this
+      · have hd : decide (a = m) = false := by simp [h]
+        have hne : (a == m) = false := by simp [h]
+        simp only [List.take_succ_cons, List.zipIdx_cons, List.filter_cons, hd, List.count_cons, hne]
+        simpa using this
+
+theorem readVals_append (samples : List (Nat × List Int)) (l₁ : List Nat) :
+    ∀ (pre l₂ : List Nat),
+      readVals samples pre (l₁ ++ l₂) = readVals samples pre l₁ ++ readVals samples (pre ++ l₁) l₂ := by
+  induction l₁ with
+  | nil => intro pre l₂; simp [readVals]
+  | cons a l₁ ih =>
+    intro pre l₂
+    simp only [List.cons_append, readVals, ih]
+    simp [List.append_assoc]
+
+/-! ### `rankOf` is a permutation -/
+
+theorem insertByKey_perm (key : Nat → Nat) (x : Nat) (l : List Nat) : (insertByKey key x l).Perm (x :: l) := by
+  induction l with
+  | nil => exact List.Perm.refl _
+  | cons y ys ih =>
+    simp only [insertByKey]
+    split
+    · exact List.Perm.refl _
+    · exact ((List.Perm.cons y ih).trans (List.Perm.swap x y ys))
+
+theorem rank_fold_perm (key : Nat → Nat) (l acc : List Nat) :
+    (l.foldl (fun acc i => insertByKey key i acc) acc).Perm (l ++ acc) := by
+  induction l generalizing acc with
+  | nil => exact List.Perm.refl _
+  | cons a l ih =>
+    simp only [List.foldl_cons, List.cons_append]
+    refine (ih _).trans ?_
+    refine (List.Perm.append_left l (insertByKey_perm key a acc)).trans ?_
+    exact List.perm_middle
+
+theorem rankOf_perm (slots : List Nat) : (rankOf slots).Perm (List.range slots.length) := by
+  unfold rankOf
+  simpa using rank_fold_perm (fun k => slots.getD k 0) (List.range slots.length) []
+
+/-! ### groups of `n` consecutive measurements (one time bin) -/
+
+/-- the subsystems measured in the `g`-th group of `n` measurements, in circuit order -/
+def grp (ms : List Nat) (n g : Nat) : List Nat := (List.range n).map fun k => ms.getD (g * n + k) 0
+
+theorem drop_take_eq_grp (ms : List Nat) (n g k : Nat) (hk : k ≤ n) (h : g * n + k ≤ ms.length) :
+    (ms.drop (g * n)).take k = (List.range k).map fun j => ms.getD (g * n + j) 0 := by
+  apply List.ext_getElem
+  · simp; omega
+  · intro i h1 h2
+    simp only [List.length_map, List.length_range] at h2
+    simp only [List.getElem_take, List.getElem_drop, List.getElem_map, List.getElem_range]
+    have : g * n + i < ms.length := by omega
+    simp [List.getD_eq_getElem?_getD, this]
+
+theorem take_groups (ms : List Nat) (n : Nat) : ∀ g, g * n ≤ ms.length →
+    ms.take (g * n) = (List.range g).flatMap (grp ms n) := by
+  intro g
+  induction g with
+  | zero => intro _; simp
+  | succ g ih =>
+    intro h
+    have hg : g * n ≤ ms.length := by rw [Nat.succ_mul] at h; omega
+    rw [Nat.succ_mul, List.take_add, ih hg, List.range_succ, List.flatMap_append]
+    congr 1
+    simp only [List.flatMap_cons, List.flatMap_nil, List.append_nil]
+    exact drop_take_eq_grp ms n g n (Nat.le_refl _) (by rw [Nat.succ_mul] at h; omega)
+
+theorem count_flatMap_perm (m : Nat) (F F' : Nat → List Nat) : ∀ g, (∀ g', g' < g → (F g').Perm (F' g')) →
+    ((List.range g).flatMap F).count m = ((List.range g).flatMap F').count m := by
+  intro g
+  induction g with
+  | zero => intro _; simp
+  | succ g ih =>
+    intro h
+    rw [List.range_succ, List.flatMap_append, List.flatMap_append, List.count_append, List.count_append,
+      ih (fun g' hg' => h g' (by omega))]
+    simp only [List.flatMap_cons, List.flatMap_nil, List.append_nil]
+    rw [(h g (by omega)).count_eq]
+
+theorem grp_getD_ne (ms : List Nat) (n g : Nat) (hn : (grp ms n g).Nodup) (k k' : Nat) (hk : k < n)
+    (hk' : k' < n) (hne : k' ≠ k) : ms.getD (g * n + k') 0 ≠ ms.getD (g * n + k) 0 := by
+  intro e
+  have h1 : (grp ms n g).getD k' 0 = ms.getD (g * n + k') 0 := by
+    simp [grp, List.getD_eq_getElem?_getD, hk']
+  have h2 : (grp ms n g).getD k 0 = ms.getD (g * n + k) 0 := by
+    simp [grp, List.getD_eq_getElem?_getD, hk]
+  have := (List.getD_inj (fallback := 0) (by simp [grp]; exact hk') (by simp [grp]; exact hk) hn).mp
+    (by rw [h1, h2, e])
+  exact hne this
+
+/-- one time bin: walking along the group in any duplicate-free order `ks` of its positions reads the
+tags of exactly those positions -/
+theorem readVals_group (ms : List Nat) (n g : Nat) (hlen : (g + 1) * n ≤ ms.length)
+    (hn : (grp ms n g).Nodup) (pre : List Nat)
+    (hpre : ∀ m, pre.count m = (ms.take (g * n)).count m) :
+    ∀ (rest done : List Nat), (done ++ rest).Nodup → (∀ k ∈ done ++ rest, k < n) →
+      readVals (collectFrom [] ms 0) (pre ++ done.map fun k => ms.getD (g * n + k) 0)
+          (rest.map fun k => ms.getD (g * n + k) 0) =
+        rest.map fun k => ((g * n + k : Nat) : Int) := by
+  intro rest
+  induction rest with
+  | nil => intro done _ _; simp [readVals]
+  | cons k rest ih =>
+    intro done hnd hlt
+    have hk : k < n := hlt k (by simp)
+    have hi : g * n + k < ms.length := by rw [Nat.succ_mul] at hlen; omega
+    simp only [List.map_cons, readVals]
+    congr 1
+    · -- the value read is the tag of position g*n+k
+      rw [alGet_collectFrom]
+      simp only [alGet, List.nil_append]
+      have hq := queue_getD ms 0 (g * n + k) (ms.getD (g * n + k) 0) hi rfl
+      rw [Nat.zero_add] at hq
+      rw [← hq]
+      congr 1
+      rw [List.count_append, hpre]
+      have hdone : (done.map fun k' => ms.getD (g * n + k') 0).count (ms.getD (g * n + k) 0) = 0 := by
+        apply List.count_eq_zero_of_not_mem
+        intro hmem
+        simp only [List.mem_map] at hmem
+        obtain ⟨k', hk'mem, he⟩ := hmem
+        have hk'lt : k' < n := hlt k' (by simp [hk'mem])
+        have hne : k' ≠ k := by
+          intro e; subst e
+          have := List.nodup_append.mp hnd
+          exact this.2.2 k' hk'mem k' (by simp) rfl
+        exact grp_getD_ne ms n g hn k k' hk hk'lt hne he
+      rw [hdone, Nat.add_zero, List.take_add, List.count_append]
+      have hin : ((ms.drop (g * n)).take k).count (ms.getD (g * n + k) 0) = 0 := by
+        apply List.count_eq_zero_of_not_mem
+        rw [drop_take_eq_grp ms n g k (by omega) (by omega)]
+        intro hmem
+        simp only [List.mem_map, List.mem_range] at hmem
+        obtain ⟨j, hj, he⟩ := hmem
+        exact grp_getD_ne ms n g hn k j hk (by omega) (by omega) he
+      rw [hin, Nat.add_zero]
+    · have := ih (done ++ [k]) (by simpa [List.append_assoc] using hnd)
+        (by intro k' hk'; exact hlt k' (by simpa [List.append_assoc] using hk'))
+      simpa [List.map_append, List.append_assoc] using this
+
+/-- all time bins: walking along `get_mode_order` reads, from the collected queues, the tag of the
+`rank[b]`-th measurement of every group -/
+theorem readVals_groups (ms : List Nat) (n G : Nat) (rank : List Nat) (hlen : ms.length = G * n)
+    (hrank : rank.Perm (List.range n)) (hn : ∀ g, g < G → (grp ms n g).Nodup) :
+    ∀ g, g ≤ G →
+      readVals (collectFrom [] ms 0) []
+          ((List.range g).flatMap fun g' => rank.map fun k => ms.getD (g' * n + k) 0) =
+        (List.range g).flatMap fun g' => rank.map fun k => ((g' * n + k : Nat) : Int) := by
+  intro g
+  induction g with
+  | zero => intro _; simp [readVals]
+  | succ g ih =>
+    intro hg
+    have hgl : (g + 1) * n ≤ ms.length := by rw [hlen]; exact Nat.mul_le_mul_right _ hg
+    rw [List.range_succ, List.flatMap_append, List.flatMap_append, readVals_append, ih (by omega)]
+    congr 1
+    simp only [List.flatMap_cons, List.flatMap_nil, List.append_nil, List.nil_append]
+    have hpre : ∀ m, ((List.range g).flatMap fun g' => rank.map fun k => ms.getD (g' * n + k) 0).count m =
+        (ms.take (g * n)).count m := by
+      intro m
+      rw [take_groups ms n g (by rw [Nat.succ_mul] at hgl; omega)]
+      apply count_flatMap_perm
+      intro g' _
+      exact hrank.map _
+    have := readVals_group ms n g hgl (hn g (by omega)) _ hpre rank []
+      (by simpa using hrank.nodup_iff.mpr List.nodup_range)
+      (by intro k hk; simpa using (hrank.mem_iff.mp (by simpa using hk)))
+    simpa using this
+
+theorem range_mul_flatMap {β : Type} (S T : Nat) (H : Nat → List β) :
+    (List.range (S * T)).flatMap H = (List.range S).flatMap fun s => (List.range T).flatMap fun t => H (s * T + t) := by
+  induction S with
+  | zero => simp
+  | succ S ih =>
+    rw [Nat.succ_mul, List.range_add, List.flatMap_append, ih, List.range_succ, List.flatMap_append]
+    congr 1
+    simp [List.flatMap_map]
+
+theorem nested_flatten (S T : Nat) (X : Nat → Nat → List Int) :
+    ((List.range S).map fun s => (List.range T).map fun t => X s t).flatten.flatten =
+      (List.range S).flatMap fun s => (List.range T).flatMap fun t => X s t := by
+  induction S with
+  | zero => simp
+  | succ S ih =>
+    rw [List.range_succ, List.map_append, List.flatten_append, List.flatten_append, ih, List.flatMap_append]
+    simp [List.flatMap_def]
+
+theorem ceil_div_mul (G n : Nat) (hn : 0 < n) : (G * n + n - 1) / n = G := by
+  have : G * n + n - 1 = n * G + (n - 1) := by rw [Nat.mul_comm]; omega
+  rw [this, Nat.mul_add_div hn, Nat.div_eq_of_lt (by omega)]; omega
+
+/-- **what a run reads.**  If the executed circuit performs `S·T` groups of `n` measurements (`n` = number
+of measurements in the loop body) and the subsystems measured within one group are pairwise distinct,
+then walking along `get_mode_order` through the collected samples reads, for shot `s`, bin `t`, band `b`,
+the outcome of the `rank[b]`-th measurement of time bin `s·T + t` (tag = its position in the circuit). -/
+theorem run_reads_in_order (rolled circ : List TCmd) (S T : Nat)
+    (hn0 : 0 < (measuredRegs rolled).length)
+    (hlen : (measuredRegs circ).length = S * T * (measuredRegs rolled).length)
+    (hn : ∀ g, g < S * T → (grp (measuredRegs circ) (measuredRegs rolled).length g).Nodup) :
+    readVals (collectSamples circ) [] (measOrder rolled circ) =
+      ((List.range S).map fun s => (List.range T).map fun t =>
+        (List.range (measuredRegs rolled).length).map fun b =>
+          (((s * T + t) * (measuredRegs rolled).length + (rankOf (measuredRegs rolled)).getD b 0 : Nat) : Int)
+        ).flatten.flatten := by
+  have hrank := rankOf_perm (measuredRegs rolled)
+  have hrl : (rankOf (measuredRegs rolled)).length = (measuredRegs rolled).length := by
+    simpa using hrank.length_eq
+  have hne : ¬ (measuredRegs rolled).length = 0 := by omega
+  rw [collectSamples_eq]
+  unfold measOrder
+  simp only [hne, if_false, hlen, ceil_div_mul _ _ hn0]
+  rw [readVals_groups _ _ (S * T) _ hlen hrank hn (S * T) (Nat.le_refl _), range_mul_flatMap, nested_flatten]
+  apply flatMap_congr'
+  intro s _
+  apply flatMap_congr'
+  intro t _
+  rw [map_eq_map_range_getD, hrl]
+
+
 end SFV.Tdm
